@@ -711,6 +711,10 @@ func (b *Builder) UnBounded(o interface{}, x bool) {
 
 func (b *Builder) Default(o interface{}, defaultVal string) {
 	if h, valid := o.(HasDefault); valid {
+		if _, many := o.(HasDefaultValues); !many && h.HasDefault() {
+			b.setErr(fmt.Errorf("%T has more than one default", o))
+			return
+		}
 		h.addDefault(defaultVal)
 	} else {
 		b.setErr(fmt.Errorf("%T does not support default", o))
